@@ -6,13 +6,13 @@ RULE = ("random create/delete/enable/probe histories over 1-3 participants (publ
         "content-filtered topics, writers, readers; deleted and never-created names are reused on purpose), about one "
         "case in three with a counter loop `repeat n <create> [; delete]` with n in {3,10,253..256,300}; non-trivial = "
         "at least 3 entities created and at least one delete/loop; distinct by canonical op lines")
-ASSUMPTIONS = ["debug profile (overflow checks on) for the correspondence; the release profile (wrapping counters) is covered "
-               "by the model theorems only, plus a one-off replay recorded in notes/tree.md",
-               "fewer than 2^32 participants are created by one factory (AtomicU32 fetch_add wraps silently)"]
+ASSUMPTIONS = ["the tree under check contains fixes/D40.patch (checked counter increments); the behaviour before the patch is kept as "
+               "Model/TreeOld.lean + the C35_*_counterexample theorems + the `#model old` switch of the Lean driver (notes/tree.md, Follow-up)",
+               "the factory's 32-bit participant counter (also made checked by the patch) cannot be driven to its rail by a test: that line is covered by reading and by the model only"]
 PROFILE = Profile(loops=35, nops=(6, 28), weights={"inst": 2, "probe": 6, "handle": 5})
 CORPUS = [
-    # exemplar of D40: the 256th publisher of a participant panics the worker (debug profile)
-    ["participant P", "repeat 256 publisher b%i P", "probe P"],
+    # regression for D40 (fixed): the 256th publisher of a participant is refused with OutOfResources, nothing dies
+    ["participant P", "repeat 258 publisher b%i P", "probe P", "probe b254", "delete b0", "publisher again P", "subscriber s P", "handle s"],
     ["participant P", "repeat 255 subscriber s%i P ; delete s%i", "subscriber last P", "probe P"],
     ["participant P", "participant Q", "publisher keep P", "repeat 254 publisher b%i P ; delete b%i", "publisher q Q",
      "handle keep", "handle q", "publisher one_too_many P"],
@@ -36,7 +36,7 @@ def run(ctx):
         # (entities are created not-enabled: nothing is announced, a create+delete costs about 1 ms instead of 10)
         cases.append(Case(["participant P", "publisher pb P autoenable=0", "topic t P A ki",
                            "repeat 65534 writer w%i pb t ; delete w%i", "writer last pb t", "handle last",
-                           "writer one_too_many pb t", "probe P"]))
+                           "writer one_too_many pb t", "probe P", "probe last"]))
         cases.append(Case(["participant P", "subscriber sb P autoenable=0", "topic t P A ki",
                            "repeat 65535 reader r%i sb t ; delete r%i", "reader one_too_many sb t"]))
         cases.append(Case(["participant P autoenable=0", "repeat 65535 topic t%i P N%i ki ; delete t%i",
@@ -48,18 +48,20 @@ def run(ctx):
 
 
 TECHNIQUE = "Lean 4 invariant over all operation histories of the entity-tree model + differential correspondence with the real participant through the deterministic simulator (public API only)"
-LEVEL_TEXT = ("Kernel-checked Lean theorems over the entity-tree model (Model/Tree.lean, counters with their u8/u16/u32 widths, both "
-              "build profiles): C35_unique_partial (after ANY history, all live participants/publishers/subscribers/topics/writers/readers "
-              "have pairwise distinct handles as long as no counter has wrapped), C35_unique_debug (with overflow checks on, every history "
-              "keeps handles distinct), C35_no_panic_partial / C35_no_panic_history_partial (no tree operation panics while every counter is "
-              "below its rail; at most 255 operations never panic), C35_no_panic_release; as-is counter-examples "
-              "C35_no_panic_counterexample (256th publisher panics the worker, replayed: KNOWN-FINDING D40) and "
-              "C35_unique_counterexample / C35_unique_churn_counterexample (release: the 257th publisher gets the handle of the first). "
-              "The model is tied to the real code by running random create/delete histories, including counter loops up to 300 "
-              "(thorough: 65 536) creations, on both and comparing every return code and handle.")
+LEVEL_TEXT = ("Kernel-checked Lean theorems over the entity-tree model (Model/Tree.lean = the code with fixes/D40.patch: every handle counter is "
+              "incremented with checked_add and an exhausted counter makes the creation return OutOfResources before anything changes): "
+              "C35_unique (after ANY history, of any length, in either build profile, all live participants/publishers/subscribers/topics/"
+              "writers/readers have pairwise distinct handles), C35_no_panic (from ANY state no create/delete/enable/get_qos panics or kills "
+              "the worker), C35_no_panic_history (no history ever panics), C35_exhausted_refused (the refused creation leaves the state "
+              "unchanged). The pre-patch behaviour (D40: 256th publisher panics the worker in a debug build, 257th gets the handle of the "
+              "first in a release build) is kept as regression witnesses on Model/TreeOld.lean (C35_no_panic_counterexample, "
+              "C35_unique_counterexample, C35_unique_churn_counterexample) next to C35_fixed_regression. The model is tied to the real code "
+              "by random create/delete histories including counter loops past the 8-bit rails (thorough: the 16-bit rails), comparing "
+              "every return code and handle.")
 LEVEL_NOTE = ("Trusted: Lean kernel; the hand-written model of participant_entity.rs / participant_methods.rs / publisher_methods.rs / "
-              "subscriber_methods.rs (nested Vecs flattened with ghost serial numbers, counters as `ever % 2^width`); the dsim harness "
-              "(virtual runtime + in-memory transport behind the public async API) and the Python shadow oracle. The release-profile "
-              "wrap is proved about the model and replayed once by hand, not exercised by the check (the harness is a debug build).")
+              "subscriber_methods.rs / domain_participant_factory.rs (nested Vecs flattened with ghost serial numbers, counters as ghost "
+              "Nat counters whose field value is `ever % 2^width`); the dsim harness (virtual runtime + in-memory transport behind the "
+              "public async API) and the Python shadow oracle. Requires fixes/D40.patch in the tree; the 32-bit factory counter's rail is "
+              "not reachable by a test.")
 DESIGN_REF = "DESIGN.md section 5 C35, section 3.3 (dsim)"
 LEAN_MODULES = ["DustVerif.Props.C35"]
